@@ -140,6 +140,16 @@ Theorem C01_tlv_header_shape : forall b c i l,
   0 <= l /\ i + l <= zlen b.
 Proof. exact tlv_hdr_shape. Qed.
 
+(* snmp: the library sees a datagram's buffer exactly when that buffer is such a forest,
+   whatever the PDU tag and wherever a value sits in the message *)
+Theorem C01_snmp_accepted_buffer_is_wellnested : forall dg,
+  snmp_first dg = None <-> (2 <= length dg)%nat /\ wellnested 33 (snmp_buf dg).
+Proof. exact snmp_accepts_iff. Qed.
+
+Theorem C01_ldap_accepted_buffer_is_wellnested : forall st buf,
+  ldap_envelope st = EOk buf -> wellnested 33 buf.
+Proof. exact ldap_accepts_wellnested. Qed.
+
 Theorem C01_snmp_never_fatal : forall dg s, snmp_first dg <> Some (RFatal s).
 Proof. exact snmp_never_fatal. Qed.
 
@@ -176,6 +186,7 @@ Example C01_nonvacuous :
   ldap_first [4; 133; 64; 0; 0; 0; 0]%N = Some RErr /\
   ldap_first [48; 128; 48; 128]%N = Some RErr /\
   snmp_first [48; 3; 2; 1; 0]%N = None /\
+  snmp_first [48; 20; 2; 1; 0; 4; 6; 112; 117; 98; 108; 105; 99; 160; 7; 2; 133; 64; 0; 0; 0; 0]%N = Some ROk /\
   lib_allocs 5 (snmp_buf [48; 3; 2; 1; 0]%N) = [3; 1] /\
   ldap_first [48; 5; 2; 1; 5; 66; 0]%N = None /\
   ldap_first ([48; 20] ++ LDAP_PREFIX ++ [31; 6; 133; 64; 0; 0; 0; 0])%N = Some RErr /\
@@ -207,6 +218,8 @@ Print Assumptions C01_alloc_small_fine.
 Print Assumptions C01_tlv_lengths_fit_bounds_allocations.
 Print Assumptions C01_accepted_buffer_is_wellnested.
 Print Assumptions C01_tlv_header_shape.
+Print Assumptions C01_snmp_accepted_buffer_is_wellnested.
+Print Assumptions C01_ldap_accepted_buffer_is_wellnested.
 Print Assumptions C01_snmp_never_fatal.
 Print Assumptions C01_snmp_library_allocations_fine.
 Print Assumptions C01_ldap_envelope_checked.
